@@ -35,6 +35,8 @@ class Ctx:
         self.decisions = 0
         self.exploring = False
         self.notes = []
+        self.implied = []
+        self.prefix_implied = []
         fld.SIGN_ORACLE[0] = self.sign_of
         fld.DOMAIN_HOOK[0] = self.domain_hook
         CUR[0] = self
@@ -50,6 +52,38 @@ class Ctx:
         if kind == 'sqrt':
             self.domain.append(('sqrt-radicand>=0', self.zc.cmp0(q, '>='), list(self.pc)))
 
+    _vcache = {}
+
+    def _slice(self, assertions, extra):
+        """cone of influence: assertions sharing no variable (transitively) with `extra` cannot affect its feasibility as long as
+        the current path itself is feasible (which the explorer maintains)"""
+        def vs(a):
+            k = a.get_id()
+            e = self._vcache.get(k)
+            if e is None or not e[1].eq(a):
+                e = (frozenset(smt._collect_consts([a]).keys()), a)
+                self._vcache[k] = e
+            return e[0]
+        cur = set(vs(extra))
+        rest = [(a, vs(a)) for a in assertions]
+        sel = []
+        changed = True
+        while changed:
+            changed = False
+            nxt = []
+            for a, v in rest:
+                if v & cur:
+                    sel.append(a)
+                    if not v <= cur:
+                        cur |= v
+                        changed = True
+                else:
+                    nxt.append((a, v))
+            if len(nxt) != len(rest):
+                changed = True
+            rest = nxt
+        return sel
+
     def feasible(self, extra):
         self.nfeas += 1
         if smt.INPROC:
@@ -57,20 +91,38 @@ class Ctx:
             # evaluated under it (halves the number of queries)
             s = z3.Solver()
             s.set('timeout', int(self.feas_timeout * 1000))
-            s.add(*smt.prune_aux(self.assumptions() + [extra]))
+            s.add(*smt.prune_aux(self._slice(self.assumptions(), extra) + [extra]))
             smt.STATS.queries += 1
             r = s.check()
             smt.STATS.by_result[str(r) if str(r) in smt.STATS.by_result else 'unknown'] += 1
             self._last_model = s.model() if r == z3.sat else None
             return r != z3.unsat
-        st, _, _ = smt.solve(self.assumptions() + [extra], timeout_s=self.feas_timeout,
-                             cvc5_timeout_s=0, want_model=False)
-        self._last_model = None
+        st, model, _ = smt.solve(self._slice(self.assumptions(), extra) + [extra], timeout_s=self.feas_timeout,
+                                 cvc5_timeout_s=0, want_model=True)
+        self._last_model = model if st == 'sat' else None
         return st != 'unsat'
 
     def _eval_witness(self, cond):
         m = getattr(self, 'witness', None)
         if m is None:
+            return None
+        if isinstance(m, dict):
+            # model returned by a forked solver: exact rational values only (an approximated algebraic value could mis-evaluate)
+            from fractions import Fraction
+            sub = []
+            for name, var in smt._collect_consts([cond]).items():
+                val = m.get(name)
+                if not isinstance(val, Fraction) or val.denominator.bit_length() > 200:
+                    return None
+                sub.append((var, z3.RealVal(str(val)) if var.is_real() else z3.IntVal(int(val))))
+            try:
+                v = z3.simplify(z3.substitute(cond, *sub))
+            except Exception:
+                return None
+            if z3.is_true(v):
+                return True
+            if z3.is_false(v):
+                return False
             return None
         try:
             v = m.eval(cond, model_completion=True)
@@ -107,7 +159,7 @@ class Ctx:
                 else:
                     raise EngineError('undetermined branch outside explorer: %s' % str(cond)[:200])
             else:
-                w = self._eval_witness(cond) if smt.INPROC else None
+                w = self._eval_witness(cond)
                 if w is None:
                     ft = self.feasible(cond)
                     mt = getattr(self, '_last_model', None)
@@ -121,21 +173,36 @@ class Ctx:
                     ff, mf = True, self.witness
                     ft = self.feasible(cond)
                     mt = getattr(self, '_last_model', None)
+                implied = False
                 if ft and ff:
-                    self.work.append((self.trace + [False], mf))
+                    self.work.append((self.trace + [False], mf, list(self.implied) + [False]))
                     d = True
                     self.witness = mt
                 elif ft:
                     d = True
-                    self.witness = mt
+                    implied = True          # the other outcome is refuted: the decision follows from the assumptions, no need to record it
+                    if mt is not None:
+                        self.witness = mt
                 elif ff:
                     d = False
-                    self.witness = mf
+                    implied = True
+                    if mf is not None:
+                        self.witness = mf
                 else:
                     raise Abort()
+                self.pos += 1
+                self.trace.append(d)
+                self.implied.append(implied)
+                if not implied:
+                    self.pc.append(cond if d else z3.Not(cond))
+                return d
         self.pos += 1
         self.trace.append(d)
-        self.pc.append(cond if d else z3.Not(cond))
+        if self.pos - 1 < len(self.prefix_implied) and self.prefix_implied[self.pos - 1]:
+            self.implied.append(True)
+        else:
+            self.implied.append(False)
+            self.pc.append(cond if d else z3.Not(cond))
         return d
 
     def sign_of(self, q):
@@ -144,11 +211,11 @@ class Ctx:
         return 1 if self.decide(ge) else -1
 
     # ---------------------------------------------------------------------------------------
-    def explore(self, fn, max_paths=2000, max_seconds=None, catch=(ValueError, AssertionError, ZeroDivisionError)):
+    def explore(self, fn, max_paths=2000, max_seconds=None, catch=(ValueError, AssertionError, ZeroDivisionError, IndexError, KeyError)):
         """run fn() once per feasible path.  returns (leaves, exhaustive).
         leaf = dict(trace, pc, result | exception)"""
         self.exploring = True
-        self.work = [([], None)]
+        self.work = [([], None, [])]
         leaves = []
         t0 = time.time()
         exhaustive = True
@@ -157,10 +224,11 @@ class Ctx:
                 if len(leaves) >= max_paths or (max_seconds and time.time() - t0 > max_seconds):
                     exhaustive = False
                     break
-                self.prefix, self.witness = self.work.pop()
+                self.prefix, self.witness, self.prefix_implied = self.work.pop()
                 self.pos = 0
                 self.trace = []
                 self.pc = []
+                self.implied = []
                 try:
                     res = fn()
                     leaf = {'result': res, 'exception': None}
